@@ -131,6 +131,19 @@ def write_file(records, closing):
         elif closing == "with":
             with RecordWriter(p) as w:
                 feed(w)
+        elif closing in ("bareclose", "flush-mid-bareclose"):
+            # no final flush: close() alone must leave everything in the file, also what was written after an earlier flush
+            w = RecordWriter(p)
+            half = len(records) // 2 if closing == "flush-mid-bareclose" else None
+            for i, r in enumerate(records):
+                if half is not None and i == max(1, half):
+                    w.flush()
+                try:
+                    w.write(r)
+                    res.append("ok")
+                except Exception as e:  # noqa: BLE001
+                    res.append(e)
+            w.close()
         else:
             w = RecordWriter(p)
             if closing in ("flush-first", "flush-between"):
@@ -160,7 +173,7 @@ def run_case(case):
     outs = []
     label = case.get("label", case["kind"])
     n = 0
-    for closing in ("flushclose", "with", "flush-first", "flush-between", "stdout-close", "stdout-with"):
+    for closing in ("flushclose", "with", "flush-first", "flush-between", "stdout-close", "stdout-with", "bareclose", "flush-mid-bareclose"):
         n += 1
         p, res, cexc = write_file(records, closing)
         try:
@@ -198,6 +211,16 @@ def run_case(case):
                 if exc is not None:
                     if not (not accepted and not records):
                         viol.append(("C19:reader-raises:%s:%s" % (label, type(exc).__name__), case, {"error": repr(exc)[:200], "closing": closing}))
+                elif case["kind"] == "grouped":
+                    # a grouped record may be refused, or stored as its flat view: then every field holds the grouped record's value
+                    from mc.obs import obs
+
+                    for i, g in zip(accepted, got):
+                        r = records[i]
+                        bad = [k for k in g.__slots__ if not k.startswith("_") and (not hasattr(r, k) or normalise(obs(getattr(g, k))) != normalise(obs(getattr(r, k))))]
+                        if bad or len([k for k in g.__slots__ if not k.startswith("_")]) != len({k for m in r.records for k in m.__slots__ if not k.startswith("_")}):
+                            viol.append(("C19:roundtrip:grouped:values-lost", case, {"fields": bad[:5], "read": repr(g)[:160], "closing": closing}))
+                            break
                 else:
                     ogot = [normalise(o) for o in obs_list(got)]
                     d = recs.list_diff(want, ogot)
@@ -249,6 +272,10 @@ def cases(tier, seed):
     for k in range(0, 4):
         for seq in itertools.product([V1, V2], repeat=k):
             yield {"kind": "seq", "label": "seq", "records": list(seq)}
+    GA = rs("a/ga", [["string", "s"], ["varint", "n"]], ["'va'", "1"])
+    GB = rs("a/gb", [["float", "f"]], ["0.5"])
+    yield {"kind": "grouped", "label": "grouped", "records": [{"group": "a/grp", "members": [GA, GB]}]}
+    yield {"kind": "grouped", "label": "grouped", "records": [{"group": "a/grp", "members": [GA, GB]}, {"group": "a/grp", "members": [GA, GB]}]}
     for t in UNMAPPED:
         v = {"record": "None", "record[]": "None"}.get(t, "None")
         yield {"kind": "unmapped", "label": "unmapped-type", "records": [rs("a/u", [["string", "s"], [t, "x"]], ["'s'", v])], "must_refuse": [0]}
